@@ -112,6 +112,7 @@ type FnExec struct {
 	refKeys  map[string]bool // field keys whose Int sort denotes a reference
 	allowed  map[string][]Term // per-write frame: refs that may be written, per heap key (from modifies)
 	allowedWhole map[string]bool
+	frameEpochs  map[int]bool // epochs opened by the havoc of a loop in a pure / perwrite function
 	topFrame *Frame
 	anchorHits map[string]int
 	transitions map[int]*epochTransition
@@ -169,6 +170,16 @@ func (fx *FnExec) heapGet(st *State, key string, sort Sort) Term {
 // epochConst: the value of a heap key at the start of an epoch; linked to the previous epoch on private objects.
 func (fx *FnExec) epochConst(key string, epoch int) Term {
 	c := fx.ctx.Const(fmt.Sprintf("H!%s!e%d", key, epoch), fx.keySort[key])
+	if fx.frameEpochs[epoch] && fx.ctx.quant == 0 {
+		fk := fmt.Sprintf("lf:%s!e%d", key, epoch)
+		if fx.linked == nil {
+			fx.linked = map[string]bool{}
+		}
+		if !fx.linked[fk] {
+			fx.linked[fk] = true
+			fx.loopFrameFact(key, c)
+		}
+	}
 	if tr, ok := fx.transitions[epoch]; ok && len(tr.priv) > 0 {
 		lk := fmt.Sprintf("%s!e%d", key, epoch)
 		if fx.linked == nil {
@@ -236,10 +247,40 @@ func (fx *FnExec) assume(st *State, fact Term) {
 	fx.ctx.Assert(Implies(st.pc, fact))
 }
 
+// extendPC: c holds from here on. Quantifier-free conjuncts become part of the path condition; universally quantified
+// ones are facts asserted under the path condition (and recorded for instantiation), so that path conditions — which
+// occur in every later obligation — stay quantifier-free.
 func (fx *FnExec) extendPC(st *State, c Term) {
-	st.pc = fx.ctx.Define("pc", And(st.pc, c))
-	if fx.ctx.quant == 0 {
-		fx.noteQuantified(st, st.pc.S, c.S)
+	if fx.ctx.quant > 0 || !strings.Contains(c.S, "(forall ") {
+		st.pc = fx.ctx.Define("pc", And(st.pc, c))
+		return
+	}
+	var plain []Term
+	var quantified []string
+	var split func(f string)
+	split = func(f string) {
+		if !strings.Contains(f, "(forall ") {
+			plain = append(plain, Term{f, SBool})
+			return
+		}
+		if op, args, ok := topArgs(f); ok && op == "and" {
+			for _, a := range args {
+				split(a)
+			}
+			return
+		}
+		quantified = append(quantified, f)
+	}
+	split(c.S)
+	st.pc = fx.ctx.Define("pc", And(append([]Term{st.pc}, plain...)...))
+	for _, q := range quantified {
+		if _, _, _, ok := parseForall(q); ok || strings.HasPrefix(q, "(=> ") {
+			fx.ctx.lines = append(fx.ctx.lines, "(assert (=> "+st.pc.S+" "+q+"))")
+			fx.noteQuantified(st, st.pc.S, q)
+			continue
+		}
+		// a quantifier in a position that is not plainly positive: keep it in the path condition
+		st.pc = fx.ctx.Define("pc", And(st.pc, Term{q, SBool}))
 	}
 }
 
@@ -832,6 +873,35 @@ func (fr *Frame) evalPhis(b *ssa.BasicBlock, ins []*State, preds []*ssa.BasicBlo
 	}
 }
 
+// loopFrameFact: in a function whose writes are justified one by one (pure / perwrite), an object that existed at
+// function entry and is not a modifies target still has its entry value at every loop header — every write and every
+// callee effect inside the loop is obliged to hit a fresh object or a listed location, so by induction over the
+// execution nothing else changes. This is the loop frame; it replaces restating "the rest is unchanged" in invariants.
+func (fx *FnExec) loopFrameFact(key string, cur Term) {
+	if !fx.perWrite() || fx.entry == nil || strings.HasPrefix(key, "Local.") || strings.HasPrefix(key, "Box.") || fx.allowedWhole[key] {
+		return
+	}
+	sort := fx.keySort[key]
+	if !strings.HasPrefix(string(sort), "(Array Int ") {
+		return
+	}
+	old := fx.heapGet(fx.entry, key, sort)
+	if old.S == cur.S {
+		return
+	}
+	fx.ctx.nfresh++
+	p := smtIdent(fmt.Sprintf("q!lf!%d", fx.ctx.nfresh))
+	w := fx.entry.wm.S
+	conds := []string{fmt.Sprintf("(not (= %s 0))", p), fmt.Sprintf("(<= %s %s)", p, w), fmt.Sprintf("(> %s (- (* 1024 (+ %s 1))))", p, w)}
+	if strings.HasPrefix(key, "Glob.") {
+		conds = []string{fmt.Sprintf("(= %s 1)", p)}
+	}
+	for _, a := range fx.allowed[key] {
+		conds = append(conds, fmt.Sprintf("(not (= %s %s))", p, a.S))
+	}
+	fx.ctx.Assert(Term{fmt.Sprintf("(forall ((%s Int)) (=> (and %s) (= (select %s %s) (select %s %s))))", p, strings.Join(conds, " "), cur.S, p, old.S, p), SBool})
+}
+
 // modified heap keys / allocation inside a loop body
 func (fr *Frame) loopMods(h int) (keys map[string]Sort, any bool) {
 	return fr.fx.eng.loopModSet(fr.fn, fr.loops.body[h])
@@ -864,6 +934,12 @@ func (fr *Frame) enterLoop(h *ssa.BasicBlock, ins []*State, preds []*ssa.BasicBl
 	keys, any := fr.loopMods(h.Index)
 	if any {
 		fx.newEpochP(st, false) // the loop itself may modify private objects: the invariant has to restate them
+		if fx.perWrite() {
+			if fx.frameEpochs == nil {
+				fx.frameEpochs = map[int]bool{}
+			}
+			fx.frameEpochs[st.epoch] = true
+		}
 		for _, k := range sortedKeys(keys) {
 			if strings.HasPrefix(k, "Local.") {
 				if _, ok := fx.keySort[k]; !ok {
@@ -878,6 +954,9 @@ func (fr *Frame) enterLoop(h *ssa.BasicBlock, ins []*State, preds []*ssa.BasicBl
 				fx.keySort[k] = keys[k]
 			}
 			st.heap[k] = fx.ctx.Fresh("Hloop."+k, fx.keySort[k])
+			if fr.top || fr.fx.topFrame != nil {
+				fx.loopFrameFact(k, st.heap[k])
+			}
 		}
 		w := fx.ctx.Fresh("wm", SInt)
 		fx.ctx.Assert(Ge(w, st.wm))
@@ -892,6 +971,9 @@ func (fr *Frame) enterLoop(h *ssa.BasicBlock, ins []*State, preds []*ssa.BasicBl
 			continue // no event in the loop body can set or clear this flag
 		}
 		st.ghost[k] = fx.ctx.Fresh("g."+k, SBool)
+	}
+	if fr.top && fx.contract != nil {
+		fr.ghostAnchors(fmt.Sprintf("iter:%d", ord), st) // the start of an iteration is an event ghost flags can be keyed to
 	}
 	if loopGhosts[fr] == nil {
 		loopGhosts[fr] = map[int]map[string]Term{}
@@ -1162,7 +1244,19 @@ func (fr *Frame) loopGhostMods(h int) map[string]bool {
 				events = append(events, "mapupdate:"+typeKey(x.Map.Type()))
 			case *ssa.Lookup:
 				events = append(events, "lookup:"+typeKey(x.X.Type()))
+			case *ssa.Store:
+				ks, _ := fx.eng.keyOfAddr(x.Addr)
+				for k := range ks {
+					events = append(events, "store:"+k)
+				}
 			}
+		}
+	}
+	// iteration-start events of this loop and of the loops nested in it
+	for h2, body2 := range fr.loops.body {
+		if fr.loops.body[h][h2] || h2 == h {
+			_ = body2
+			events = append(events, fmt.Sprintf("iter:%d", fr.loops.ordinal[h2]))
 		}
 	}
 	for _, ev := range events {
